@@ -25,7 +25,8 @@ RULE = ('histories of parse(document, context, flags) calls sharing one process,
 ASSUMPTIONS = ['the freeze() flag set by the walker is excluded from the database snapshot',
                'fresh results come from subprocesses started with the same PYTHONHASHSEED']
 NSHARDS = 16
-RECIPES = ['default', 'every', 'extended', 'extra', 'extdelta', 'extdelta2', 'options']
+RECIPES = ['default', 'every', 'extended', 'extra', 'extdelta', 'extdelta2', 'options', 'optget',
+           'optget2']
 
 SUSPICIOUS = [
     ['every', '\\mv{a{b}c}d'],
@@ -96,6 +97,10 @@ ABORTED = [
     ['default', '\\item[x] \\sqrt[3]{z} \\section* [Short]{t}'], ['default', 'a\\\\ [C,D] b\\\\[2mm] c'],
     ['extdelta2', '\\begin{defenv}\\entry[a]b\\end{defenv}\\entry[c]'],
     ['extdelta2', '\\entry[b]\\auto[x]{y}\\begin{defenvb}[o]\\entry{a}{b}\\end{defenvb}'],
+    # the same argument letters and option names with opposite option values, obtained from the
+    # library's process-wide cache of standard argument parsers
+    ['optget', '\\ogfull a\\ogfull{b c}\\ogsp{d} [e]\\ogboth {f}\\ogplain{g} [h]'],
+    ['optget2', '\\ogfull a\\ogfull{b c}\\ogsp{d} [e]\\ogboth {f}\\ogplain{g} [h]'],
 ]
 SUSPICIOUS_MORE = SUSPICIOUS_MORE + UNKNOWN_NAMES + ABORTED
 
